@@ -116,7 +116,7 @@ ALL_MODES = tuple((fo, fa, f1) for fo in (False, True) for fa in (True, False) f
 
 
 def replay(cs, scenario, graph, rec, modes=DEFAULT_MODES, foreign=True, max_states=None, extras=True,
-           decode_limit=None):
+           decode_limit=None, readable=True):
     """walk the real environments through the whole graph; returns counters"""
     init, params, edges = graph
     out, parent, order = bfs(init, edges)
@@ -160,10 +160,11 @@ def replay(cs, scenario, graph, rec, modes=DEFAULT_MODES, foreign=True, max_stat
         if extras:
             for e in flat_envs[:1]:
                 rec.mask(e)
-            rec.readable_state(eids[si % len(eids)], cs)
-            e = eids[(si + 1) % len(eids)]
-            env = rec.envs[e]
-            rec.readable_obs(e, cs, env.last_obs.numpy_flat() if env.flat_obs else env.last_obs.numpy())
+            if readable:
+                rec.readable_state(eids[si % len(eids)], cs)
+                e = eids[(si + 1) % len(eids)]
+                env = rec.envs[e]
+                rec.readable_obs(e, cs, env.last_obs.numpy_flat() if env.flat_obs else env.last_obs.numpy())
         for (pre, k, luck, post, gate) in out[s]:
             a = pyref.flat_action(cs, k)
             n_edges += 1
